@@ -8,6 +8,7 @@ import os, re, sys, glob, time
 import vlib, schedlib
 
 PROP = "C14"
+SAMPLE_MAX = 60      # longest trace shown as a sample in the evidence
 
 
 # ---------------------------------------------------------------------------------- cases
@@ -189,6 +190,8 @@ def small_configs(tier):
         ("bbq1_2p2c", "bbq", 1, 1, 0, "spawn", [[P(101)], [P(201)], [T], [T]]),
         ("bbq1_2p1c", "bbq", 1, 1, 1, "spawn", [[P(101), P(102)], [P(201)], [T, T, T]]),
         ("bbq2_1p2c", "bbq", 2, 1, 0, "spawn", [[P(101), P(102), P(103)], [T, S], [T, T]]),
+        # two producers parked on a full queue, two takes in a row: one notification per take is needed
+        ("bbq2_2p_tt", "bbq", 2, 1, 0, "spawn", [[P(101), P(102), P(103)], [P(201)], [T, T]]),
         ("latch1_2w", "latch", 1, 1, 1, "spawn", [["wait"], ["wait"], ["cd"]]),
         ("latch2_2w", "latch", 1, 2, 0, "spawn", [["cd", "wait"], ["wait", "count"], ["cd"]]),
         ("latch1_muduo", "latch", 1, 1, 0, "muduo", [["wait"], ["cd", "count"]]),
@@ -309,24 +312,64 @@ def run(chk, replay=None):
                              components=("base",), wrap=schedlib.WRAP)
     R = Runner(impl, model)
     t_start = time.time()
-    all_cases, all_runs = [], {}
+    all_runs = {}          # only the runs that fail the oracle or the trace validation are kept (memory)
+    ncases = [0]
     stats = {"systematic_runs": 0, "random_runs": 0, "deadlock_reports": 0, "configs": {}}
-
-    verdict = {}          # cid -> oracle message (None = holds)
+    oracle_bad, corr_bad, sigs = [], [], set()
+    steps = [0]
+    nvalidated = [0]
+    phase = {"impl": 0.0, "oracle": 0.0, "model": 0.0}
     nbad = [0]
     ENOUGH = 40           # failing runs after which further exploration adds nothing
 
-    def absorb(cases, runs):
+    def run_and_absorb(cases):
+        """implementation -> oracle -> trace validation by the extracted model, batch by batch"""
+        t0 = time.time()
+        runs = R.run_impl(cases)
+        t1 = time.time()
+        msgs = {c.cid: oracle(c, runs[c.cid]) for c in cases}
+        t2 = time.time()
+        tv = [c for c in cases if not runs[c.cid].steplimit]
+        mv = R.run_model(tv, runs)
+        t3 = time.time()
+        phase["impl"] += t1 - t0
+        phase["oracle"] += t2 - t1
+        phase["model"] += t3 - t2
         for c in cases:
-            all_cases.append(c)
-            all_runs[c.cid] = runs[c.cid]
-            verdict[c.cid] = oracle(c, runs[c.cid])
-            if verdict[c.cid] is not None:
+            r = runs[c.cid]
+            ncases[0] += 1
+            chk.cov["evaluations"] += 1
+            if r.deadlock:
+                stats["deadlock_reports"] += 1
+            nt = nontrivial(r)
+            if nt:
+                sigs.add((c.header.split(" sched=")[0], tuple(c.ops), tuple(r.schedule or ())))
+            if len(chk.cov["samples"]) < 4 and c.tag == "random" and nt and len(r.trace) < SAMPLE_MAX:
+                chk.sample({"case": c.text().split("\n")[:-1], "events": [" ".join(e) for e in r.events][:14],
+                            "schedule": r.schedule, "deadlock": r.deadlock})
+            keep = False
+            if msgs[c.cid] is not None:
+                oracle_bad.append((c, msgs[c.cid]))
                 nbad[0] += 1
+                keep = True
+            v = mv.get(c.cid)
+            if v is not None:
+                nvalidated[0] += 1
+                if v.startswith("accepted"):
+                    steps[0] += int(v.split()[1])
+                else:
+                    corr_bad.append((c, v))
+                    keep = True
+            if keep:
+                if r.steplimit and len(r.lines) > 400:      # a livelock trace is long and says nothing more
+                    r.lines = r.lines[:100] + ["# ... %d lines omitted ..." % (len(r.lines) - 300)] + r.lines[-200:]
+                    r.trace = r.trace[:100] + r.trace[-200:]
+                all_runs[c.cid] = r
+        return runs
 
     if replay:
         cases = schedlib.load_cases(replay)
-        absorb(cases, R.run_impl(cases))
+        run_and_absorb(cases)
     else:
         corpus = []
         for f in sorted(glob.glob(os.path.join(vlib.ROOT, "corpus", PROP, "*.case"))):
@@ -334,7 +377,7 @@ def run(chk, replay=None):
                 c.cid = "corpus_" + os.path.basename(f)[:-5] + "_" + c.cid
                 corpus.append(c)
         if corpus:
-            absorb(corpus, R.run_impl(corpus))
+            run_and_absorb(corpus)
         # systematic enumeration under a preemption bound
         bound = 2 if tier == "quick" else 3
         per_cfg = 2500 if tier == "quick" else 40000
@@ -355,8 +398,7 @@ def run(chk, replay=None):
                                      cap=cap, count=count, spur=spur, thr=thr, tag="systematic"))
                 cases += cs
                 owners.append((e, b, cs))
-            runs = R.run_impl(cases)
-            absorb(cases, runs)
+            runs = run_and_absorb(cases)
             for (e, b, cs) in owners:
                 e.feed(b, [runs[c.cid] for c in cs])
         for (name, kind, cap, count, spur, thr, progs) in cfgs:
@@ -372,35 +414,10 @@ def run(chk, replay=None):
             if nbad[0] >= ENOUGH:
                 break
             chunk = cases[i:i + 2000]
-            absorb(chunk, R.run_impl(chunk))
+            run_and_absorb(chunk)
             ndone += len(chunk)
         stats["random_runs"] = ndone
         stats["stopped_early_after_failures"] = nbad[0] >= ENOUGH
-    t_impl = time.time()
-
-    # oracle on every run
-    oracle_bad = []
-    sigs = set()
-    for c in all_cases:
-        r = all_runs[c.cid]
-        chk.cov["evaluations"] += 1
-        if r.deadlock:
-            stats["deadlock_reports"] += 1
-        msg = verdict[c.cid]
-        if msg is not None:
-            oracle_bad.append((c, msg))
-        if nontrivial(r):
-            sigs.add((c.header.split(" sched=")[0], tuple(c.ops), tuple(r.schedule or ())))
-        if len(chk.cov["samples"]) < 4 and c.tag == "random" and nontrivial(r) and len(r.trace) < 60:
-            chk.sample({"case": c.text().split("\n")[:-1], "events": [" ".join(e) for e in r.events][:12],
-                        "schedule": r.schedule, "deadlock": r.deadlock})
-    t_or = time.time()
-    # trace validation by the extracted model
-    verdicts = R.run_model(all_cases, all_runs)
-    corr_bad = [(c, verdicts[c.cid]) for c in all_cases if not verdicts[c.cid].startswith("accepted")]
-    steps = sum(int(v.split()[1]) for v in verdicts.values() if v.startswith("accepted"))
-    t_model = time.time()
-
     chk.cov["distinct_nontrivial"] = len(sigs)
     chk.cov["rule"] = ("corpus + systematic schedule enumeration (iterative context bounding, every schedule with <= N preemptions "
                        "of each small configuration, within a per-configuration budget) + random programs (1-4 producers/consumers, "
@@ -408,9 +425,9 @@ def run(chk, replay=None):
                        "non-trivial = a thread really waited on the monitor's condition, or the schedule has a preemption / "
                        "spurious wake-up; distinct by (configuration, programs, realised choice list)")
     chk.cov["schedule_stats"] = stats
-    chk.cov["model_steps_validated"] = steps
-    chk.cov["traces_validated_against_impl"] = len(all_cases) - len(corr_bad)
-    chk.cov["phase_s"] = {"impl": round(t_impl - t_start, 1), "oracle": round(t_or - t_impl, 1), "model": round(t_model - t_or, 1)}
+    chk.cov["model_steps_validated"] = steps[0]
+    chk.cov["traces_validated_against_impl"] = nvalidated[0] - len(corr_bad)
+    chk.cov["phase_s"] = {k: round(v, 1) for k, v in phase.items()}
     chk.add_obligation("trace validation: every step of BlockingQueue/BoundedBlockingQueue/CountDownLatch under the controlled "
                        "scheduler is accepted by the extracted Conc_Model.step with the same results and observers", not corr_bad)
     chk.add_obligation("oracle: exactly-once/FIFO/per-producer order/bound/holder_/no stuck waiter on the implementation's event log",
@@ -446,7 +463,7 @@ def run(chk, replay=None):
         msg2 = oracle(small, rr) or msg
         p = schedlib.write_replay(chk, "oracle_%s.case" % c.cid, "C14 violated on the implementation: %s\n%s" % (
             msg2, "\n".join(rr.lines[-40:])), small.text())
-        chk.violation(p, "C14 fails on the implementation: %s (%d of %d runs fail)" % (msg2, len(oracle_bad), len(all_cases)))
+        chk.violation(p, "C14 fails on the implementation: %s (%d of %d runs fail)" % (msg2, len(oracle_bad), ncases[0]))
     elif corr_bad or not pr["ok"]:
         what = []
         body = ""
@@ -469,7 +486,7 @@ def run(chk, replay=None):
                     small, rr = cand, rr2
             v2 = R.run_model([small], {small.cid: rr})[small.cid]
             what.append("trace validation C14_Model vs the real class broken: %s (%d of %d traces rejected); the oracle holds on all runs"
-                        % (v2 if not v2.startswith("accepted") else v, len(corr_bad), len(all_cases)))
+                        % (v2 if not v2.startswith("accepted") else v, len(corr_bad), ncases[0]))
             body = small.text() + "".join("# " + l + "\n" for l in rr.lines[-40:])
         p = chk.write_replay("broken_obligation.txt", "\n".join("# " + w for w in what) + "\n" + body +
                              ("\n--- coq log tail ---\n" + pr["log"][-3000:] if not pr["ok"] else ""))
